@@ -24,11 +24,11 @@
    The statement-level theorems speak about statements NAME[k] = rhs given as token lists (GNorm.neq + a layout) under the
    decidable conditions Denorm.dq_ok / dq_ok_ws; that the statements of real scripts are of this form is checked case by case
    by K_fixed_domain of harness/props/C14.py, not proved; that what the parser then stores is a well-formed normalised equation
-   is proved (C14_normal_form_wellformed).  Findings #20, #22 and the reserved-word parameter name (C14_reserved_word_parameter_refuted)
+   is proved (C14_normal_form_wellformed), and so is that this normal form is a fixed point (C14_normal_form_reparses).  Findings #20, #22 and the reserved-word parameter name (C14_reserved_word_parameter_refuted)
    are stated as refutations; #24 (unclosed fence) is repaired in /repo (85765d5): C14_unclosed_fence_rejected. *)
 From Coq Require Import String Ascii List Bool Arith ZArith Permutation.
 Import ListNotations.
-Require Import PyBase PyStr Lex Symbols Split Merge ParseEq ParseModel GLex GLexFacts GNorm Layout LayoutNorm LayoutLex LayoutSplit LayoutScript LayoutAccepted ContSplit MergeComm MergePerm Denorm DenormInt DenormFacts LayoutExamples GraphSrcWf GraphTokWf.
+Require Import PyBase PyStr Lex Symbols Split Merge ParseEq ParseModel GLex GLexFacts GNorm Layout LayoutNorm LayoutLex LayoutSplit LayoutScript LayoutAccepted ContSplit MergeComm MergePerm Denorm DenormInt DenormFacts LayoutExamples GraphSrcWf GraphTokWf GraphCanonWf GraphCanonText GraphParseExamples.
 Open Scope string_scope.
 
 (* ---- stage 3: whitespace ---- *)
@@ -307,6 +307,36 @@ Theorem C14_normal_form_wellformed : forall (lay : layout) (q : neq),
   = of_outcome (equation_symbols (neq_text (nrm_q q)) (cflat (nrm (whole_toks q))) (lneq_terms lay q)).
 Proof. exact normal_form_wellformed. Qed.
 Print Assumptions C14_normal_form_wellformed.
+
+(* THE NORMAL FORM OF EVERY SUCH STATEMENT IS A FIXED POINT.  nrm_q q written back in the statement syntax (canonical layout:
+   NAME[0], NAME[+k], NAME[-k], NAME['period']) satisfies the hypothesis dq_ok canon of C14_normal_form_fixed_point — for every
+   statement under dq_ok_ws + sep_ok, whatever its layout (blank runs, continuation lines, braces / angle brackets with inner
+   blanks, index layouts).  Hence parse_equation on that text yields the same equation text and the same code text as on the
+   source statement; only the types of the terms may differ (a parameter {a} comes back as the plain name a).  sep_ok is what
+   excludes the reserved-word names of C14_reserved_word_parameter_refuted (kw_free). *)
+Theorem C14_normal_form_in_fixed_point_domain : forall (lay : layout) (q : neq),
+  dq_ok_ws lay q = true -> sep_ok lay (nrhs q) = true -> dq_ok canon (nrm_q q) = true.
+Proof. exact normal_form_dq_ok. Qed.
+Print Assumptions C14_normal_form_in_fixed_point_domain.
+Theorem C14_normal_form_reparses : forall (lay : layout) (q : neq),
+  dq_ok_ws lay q = true -> sep_ok lay (nrhs q) = true ->
+  parse_equation_M (denorm_text lay q)
+  = of_outcome (equation_symbols (neq_text (nrm_q q)) (neq_code (nrm_q q)) (lneq_terms lay q)) /\
+  parse_equation_M (denorm_text canon (nrm_q q))
+  = of_outcome (equation_symbols (neq_text (nrm_q q)) (neq_code (nrm_q q)) (neq_terms (nrm_q q))).
+Proof. exact normal_form_reparses. Qed.
+Print Assumptions C14_normal_form_reparses.
+Theorem C14_normal_form_reparses_satisfiable :
+  denorm_text canon (nrm_q ex_wq1) = "Y[0] = X[-1] + max(Z[0] , a[0])" /\
+  denorm_text canon (nrm_q ex_wq2) = "Z[0] = Y[0] < max(X[+1]) if Y[0] else 1" /\
+  dq_ok canon (nrm_q ex_wq1) = true /\ dq_ok canon (nrm_q ex_wq2) = true /\
+  dq_ok_ws ex_src_lay ex_wq1 = true /\ sep_ok ex_src_lay (nrhs ex_wq1) = true /\
+  exists s1 s2, parse_equation_M (denorm_text ex_src_lay ex_wq1) = POk s1 /\ parse_equation_M (denorm_text canon (nrm_q ex_wq1)) = POk s2 /\
+    map (fun s => (sname s, sequation s, scode s)) (filter (fun s => match sequation s with Some _ => true | None => false end) s1)
+    = map (fun s => (sname s, sequation s, scode s)) (filter (fun s => match sequation s with Some _ => true | None => false end) s2) /\
+    map (fun s => (sname s, stype s)) s1 <> map (fun s => (sname s, stype s)) s2.
+Proof. exact ex_normal_form_reparses. Qed.
+Print Assumptions C14_normal_form_reparses_satisfiable.
 
 (* a statement spread over several lines inside round brackets is yielded by the splitter as ONE statement, text unchanged:
    cont_scan 0 E = every newline of E stands inside an open round bracket, no other line separator, brackets balanced *)
